@@ -49,6 +49,9 @@ def run(c):
             seenp.add(key)
             cases.append(dict(k="dec", entry="body", m=g["m"], inp=g["inp"][:i]) if TBL[g["m"]]["family"] == "ENV"
                          else dict(k="dec", entry="plain", inp=g["inp"][:i]))
+    for m, (base, singles) in singles_by_message(gen).items():      # repeated element, later copy of a different length
+        for v in dup_variants(base, singles):
+            cases.append(dict(k="dec", entry="plain", inp=v))
     for name, b in samples(4000 if not thorough else 70000):
         cases.append(dict(k="dec", entry="plain", inp=b))
         pts = range(len(b)) if len(b) <= 200 else sorted(set(list(range(64)) + [rng.randrange(len(b)) for _ in range(60)]))
